@@ -16,6 +16,15 @@ only CANONICAL FACTS are compared (see canon()): `Wping` tokens are dropped exce
 whether the timing precondition of the case held (if not the case is re-run, never judged).  Two safe classes only:
     die    silence >= limit*(maxfail+2) + 2*interval           certainly dead
     alive  every gap between two received frames < 0.85*limit   certainly alive (the generator aims at gaps <= limit/2)
+
+Cancel-safety of the receive loop (family `recv-cancel-safety`, gen_cancel / cancel_oracle / run_cancel): step
+`backsplit <hex> <ms>` delivers a frame in two halves <ms> ms of REAL time apart; the mock receiver's `receive()` keeps the
+first half inside the FUTURE, as the real transports do (TransportReceiverT::receive is not cancel-safe).  read_task keeps
+that future alive across the iterations of its select loop, so a split frame is the frame (the model driver reads
+`backsplit` as `back`); a read loop that re-creates the future per iteration drops the first half whenever another select
+arm wins in the gap (an inactivity tick: the configs tick every 30..50 ms with a max_failures that is never reached, the gap
+is 2..4 ticks long), the answer is lost and the connection dies of a framing error.  The verdict on the unchanged source
+does not depend on the clock (no case is discarded); the measured gap (T token) is only reported.
 """
 import json
 import os
@@ -37,6 +46,8 @@ BAD_FRAMES = [
 TRANSPORT_CAUSES = ("sendfault", "recvfault", "peerclosed", "inactive")
 PING_CONFIGS = [(20, 60), (20, 100), (15, 80)]      # (ping interval ms, inactive limit ms)
 GAP = 25                                              # ms of silence between two frames of an `alive` stretch
+# cancel-safety family: (ping interval ms, inactivity tick = inactive limit ms, max_failures never reached)
+CANCEL_CONFIGS = [(10, 40, 1000), (1000, 30, 1000), (15, 50, 100000)]
 
 
 def impl_bin(profile="release"):
@@ -61,6 +72,7 @@ class Script:
         self.released = False
         self.dropped = False
         self.armed = False
+        self.split_ms = None     # when set: the next frame arrives in two halves this many ms apart
 
     def add(self, text, **meta):
         self.steps.append((text, meta))
@@ -118,6 +130,9 @@ class Script:
         return h
 
     def back(self, raw, **meta):
+        if self.split_ms and len(raw) >= 2:
+            self.add("backsplit %s %d" % (raw.hex(), self.split_ms), kind="back", split=self.split_ms, **meta)
+            return
         self.add("back %s" % (raw.hex() if raw else "-"), kind="back", **meta)
 
     def answer(self):
@@ -141,23 +156,25 @@ class Script:
         if k == "call":
             h = self.rng.choice(sorted(self.calls))
             i = self.calls.pop(h)
-            self.back(J({"jsonrpc": "2.0", "id": i, "result": "r%d" % i}), what="answer", h=h)
+            self.back(J({"jsonrpc": "2.0", "id": i, "result": "r%d" % i}), what="answer", h=h, want="ok:" + J("r%d" % i).hex())
         elif k == "sub":
             h = self.rng.choice(sorted(self.subs))
             i = self.subs.pop(h)
             sid = "s%d" % h
-            self.back(J({"jsonrpc": "2.0", "id": i, "result": sid}), what="sub-ok", h=h)
+            self.back(J({"jsonrpc": "2.0", "id": i, "result": sid}), what="sub-ok", h=h, want="sub:s" + sid.encode().hex())
             self.active[h] = sid
         elif k == "batch":
             h = self.rng.choice(sorted(self.batches))
             lo, n = self.batches.pop(h)
             ids = list(range(lo, lo + n))
             self.rng.shuffle(ids)
-            self.back(J([{"jsonrpc": "2.0", "id": i, "result": "r%d" % i} for i in ids]), what="batch-answer", h=h)
+            self.back(J([{"jsonrpc": "2.0", "id": i, "result": "r%d" % i} for i in ids]), what="batch-answer", h=h,
+                      want="batch:s=%d/f=0:[%s]" % (n, ",".join("ok:" + J("r%d" % i).hex() for i in range(lo, lo + n))))
         else:
             h = self.rng.choice(sorted(self.active))
-            self.back(J({"jsonrpc": "2.0", "method": "ev", "params": {"subscription": self.active[h], "result": "p%d" % len(self.steps)}}),
-                      what="push", h=h)
+            item = "p%d" % len(self.steps)
+            self.back(J({"jsonrpc": "2.0", "method": "ev", "params": {"subscription": self.active[h], "result": item}}),
+                      what="push", h=h, want="item:" + J(item).hex())
 
     def fault(self, kind=None):
         kind = kind or self.rng.choice(["recvfault", "peerclose", "failsend", "badframe", "badframe"])
@@ -764,6 +781,147 @@ def run_ping(ctx):
         ctx.fail("build", "ping-timing-unreliable", "clifault", "%d of %d timed cases could not be run with the planned gaps: machine overloaded" % (unreliable, n))
 
 
+# ---------------------------------------------------------------- cancel-safety of the receive loop
+
+def gen_cancel(rng, ping, slow):
+    """calls / batches / subscribes answered by frames most of which arrive in two halves with a gap of 2..4 inactivity
+    ticks; notifications likewise; nothing else happens: every answer delivered, the connection healthy to the end"""
+    iv, lim, mf = ping
+    S = Script(rng, slow, ping)
+    S.family = "recv-cancel-safety"
+    S.cancel = True
+
+    def gap():
+        return rng.choice([2 * lim + 10, 3 * lim, 3 * lim + lim // 2, 4 * lim])
+
+    def deliver(p_split, push_ok=True):
+        S.split_ms = gap() if rng.random() < p_split else None
+        S.answer()
+        S.split_ms = None
+        t, m = S.steps[-1]
+        if m.get("what") == "push":
+            if not push_ok:
+                S.steps.pop()
+                return
+            # keep the subscription's buffer (8) from filling up: no lagging, no close
+            S.add("next %d" % m["h"], kind="next", want=m["want"])
+
+    S.call()
+    first = rng.random()
+    if first < 0.4:
+        S.sub()
+    elif first < 0.7:
+        S.batch()
+    deliver(1.0)                               # the very first frame is split
+    for _ in range(rng.choice([2, 3, 4, 6])):
+        r = rng.random()
+        if r < 0.4:
+            S.call()
+        elif r < 0.55:
+            S.batch()
+        elif r < 0.7:
+            S.sub()
+        if rng.random() < 0.2:
+            S.add("isconn", kind="isconn")
+        deliver(0.65)
+    while S.calls or S.subs or S.batches:      # every call gets its answer in the end
+        deliver(0.5, push_ok=False)
+    S.add("isconn", kind="isconn")
+    S.call()                                   # and the connection still works: a call after all that, answered whole
+    S.split_ms = None
+    h = sorted(S.calls)[-1]
+    i = S.calls.pop(h)
+    S.back(J({"jsonrpc": "2.0", "id": i, "result": "r%d" % i}), what="answer", h=h, want="ok:" + J("r%d" % i).hex())
+    S.add("isconn", kind="isconn")
+    return S
+
+
+def cancel_scripts(ctx):
+    out = []
+    for ping in CANCEL_CONFIGS:
+        for slow in (0, 1):
+            for _ in range(ctx.scale(4, 40)):
+                out.append(gen_cancel(ctx.rng, ping, slow))
+    return out
+
+
+def cancel_oracle(S, line, fail):
+    """C03/C09 on the implementation's output alone, for scripts in which nothing goes wrong: every call whose correct
+    answer was delivered -- in one piece or two -- completes with exactly that answer in that step, every notification
+    delivered is the next item of its stream, and the client is connected to the end (no transport half dropped, no
+    handle failed with a disconnect cause, is_connected true)"""
+    if line.startswith("CRASH") or line.startswith("?"):
+        return                                   # the general oracle reports it
+    evs, pend, panic = parse(line)
+    if len(evs) != len(S.steps):
+        return
+    for k, (t, m) in enumerate(S.steps):
+        d = evs[k]
+        how = "in two halves %d ms apart" % m["split"] if m.get("split") else "whole"
+        if m.get("kind") == "back" and m.get("what") in ("answer", "sub-ok", "batch-answer"):
+            r = d["C"].get(m["h"])
+            if r != m["want"]:
+                later = [(j, e["C"][m["h"]]) for j, e in enumerate(evs) if m["h"] in e["C"]]
+                fail("correct-answer-not-delivered", "the answer to handle %d was delivered at step %d (%s): expected completion %s, got %s%s"
+                     % (m["h"], k, how, m["want"], r, " (completed at step %d with %s)" % later[0] if later and r is None else ""))
+        if m.get("kind") == "next" and "want" in m and d["N"] != m["want"]:
+            fail("notification-not-delivered", "the notification delivered at step %d (%s) is not the next item of subscription %s: expected %s, got %s"
+                 % (k - 1, "in two halves" if S.steps[k - 1][1].get("split") else "whole", t.split()[1], m["want"], d["N"]))
+        if d["I"] == "0":
+            fail("healthy-connection-torn-down", "is_connected = false at step %d: nothing but well-formed answers and notifications ever arrived" % k)
+        if d["X"]:
+            fail("healthy-connection-torn-down", "transport marks %s at step %d: the client shut a healthy connection down" % (d["X"], k))
+        for h, r in list(d["C"].items()) + list(d["D"].items()):
+            if r.startswith("disc:") or h in d["D"] or r in ("PLACEHOLDER", "svcdisc", "timeout"):
+                fail("healthy-connection-torn-down", "handle %d completed with %s at step %d on a healthy connection" % (h, r, k))
+    if pend:
+        fail("correct-answer-not-delivered", "handles %s still pending at the end although every one of them was answered" % pend)
+    last = [evs[k]["I"] for k, (t, m) in enumerate(S.steps) if m.get("kind") == "isconn"]
+    if not last or last[-1] != "1":
+        fail("healthy-connection-torn-down", "is_connected at the end: %s" % (last[-1] if last else None))
+
+
+def run_cancel(ctx):
+    cases = cancel_scripts(ctx)
+    lines = [S.text() for S in cases]
+    n = len(lines)
+    shards = min(48, max(1, n // 2))
+    got = {}
+    for name in ("release", "debug"):
+        raw = vlib.run_lines([impl_bin(name)], lines, shards=shards, min_shard=2)
+        got[name] = [canon(S, r) for S, r in zip(cases, raw)]
+    rm = vlib.run_lines([vlib.model_bin("clifault")], lines, min_shard=100)
+    for i, (S, line, b) in enumerate(zip(cases, lines, rm)):
+        a, clk = got["release"][i]
+        dbg, dclk = got["debug"][i]
+        nsplit = sum(1 for t, m in S.steps if m.get("split"))
+        ctx.count("clifault:" + S.family)
+        ctx.count("clifault:cancel ping=%d,%d slow=%d" % (S.ping[0], S.ping[1], S.slow))
+        ctx.count("clifault:cancel split-frames", nsplit)
+        for t, m in S.steps:
+            if m.get("split"):
+                ctx.count("clifault:cancel split %s" % m.get("what"))
+        case = {"script": line}
+        # how many inactivity ticks the measured gaps certainly contained (reported, not a precondition: on a read loop that
+        # keeps its receive future the outcome does not depend on the clock)
+        if clk and clk["quiet"] and all(q[1] >= 2 * S.ping[1] for q in clk["quiet"].values()):
+            ctx.count("clifault:cancel every-gap>=2-ticks (measured)")
+        if a != b:
+            ctx.fail("diff", "clifault-model-differs", case, {"impl": a, "model": b, "clock": clk})
+        if dbg != a:
+            ctx.fail("oracle", "client-task-panicked" if "PANIC" in dbg or dbg.startswith("CRASH") else "debug-release-differ",
+                     case, {"debug": dbg, "release": a})
+        ctx.record(case, a, nontrivial=nsplit > 0)
+        said = set()
+
+        def fail(key, detail, case=case, said=said):
+            if key not in said:
+                said.add(key)
+                ctx.fail("oracle", key, case, detail)
+        oracle(S, a, fail)
+        cancel_oracle(S, a, fail)
+
+
 def scripts(ctx):
     rng = ctx.rng
     out = []
@@ -830,6 +988,7 @@ def run(ctx):
                 ctx.fail("oracle", key, case, detail)
         oracle(S, a, fail)
     run_ping(ctx)
+    run_cancel(ctx)
 
 
 def replay_case(case):
